@@ -296,7 +296,7 @@ func (sp *zzSpec) applyStep(step *zzN, in []zzNode) []zzNode {
 			} else {
 				sp.fcalls = append(sp.fcalls, zzCall{fn: name, args: []interface{}{n.v}})
 			}
-			fails := name == "fail"
+			fails := name == "fail" || name == "failrt"
 			if name == "failnum" {
 				_, fails = n.v.(float64)
 			}
@@ -331,6 +331,14 @@ func (sp *zzSpec) applyStep(step *zzN, in []zzNode) []zzNode {
 			sp.fnFailed = true
 			sp.failedFns = append(sp.failedFns, name)
 			return nil
+		}
+		if name == "aggid" {
+			out = append(out, zzNode{v: vals})
+			break
+		}
+		if name == "cnt" {
+			out = append(out, zzNode{v: float64(len(vals))})
+			break
 		}
 		out = append(out, zzNode{v: zzWrappedAgg{fn: name, args: vals}})
 	default:
